@@ -936,7 +936,12 @@ func runDevicePlugin(daemonMode string, config *daemon.Config, poolConfig *daemo
 func getPodResources(list []interface{}) []daemon.PodResources {
 	var res []daemon.PodResources
 	for _, resObj := range list {
-		res = append(res, resObj.(daemon.PodResources))
+		r := resObj.(daemon.PodResources)
+		if r.PodInfo == nil {
+			// a record without pod info can not be attributed to any pod, ignore it
+			continue
+		}
+		res = append(res, r)
 	}
 	return res
 }
